@@ -4,6 +4,8 @@ import ZvbiModel.Demux.Ts
 -/
 namespace Zvbi.Demux
 
+variable {cfg : SrcCfg}
+
 def Ph.shift (k : Nat) : Ph → Ph
   | .stop s r => .stop s r
   | .go s n => .go s (k + n)
@@ -283,22 +285,46 @@ theorem tsAdvance_mk (fs : FS) (tsBuf : Bytes) (skip consume la la' : Nat) (inSy
   unfold tsAdvance
   split <;> rfl
 
+theorem tsComplete_la (s : TsSt) (l : Nat) :
+    tsComplete { s with lookahead := l } = ({ (tsComplete s).1 with lookahead := l }, (tsComplete s).2) := by
+  unfold tsComplete
+  dsimp only
+  split
+  · rfl
+  · split <;> rfl
+
+theorem tsCopyDone_la (s : TsSt) (l : Nat) :
+    tsCopyDone cfg { s with lookahead := l } = ({ (tsCopyDone cfg s).1 with lookahead := l }, (tsCopyDone cfg s).2) := by
+  unfold tsCopyDone
+  dsimp only
+  split
+  · exact tsComplete_la s l
+  · rfl
+
+theorem tsCopyFin_la (sOrig s1 s1' : TsSt) (l : Nat) (q : Bytes) (h : s1' = { s1 with lookahead := l }) :
+    tsCopyFin cfg { sOrig with lookahead := l } s1' q = fixLa l (tsCopyFin cfg sOrig s1 q) := by
+  subst h
+  unfold tsCopyFin
+  rw [tsCopyDone_la]
+  rcases tsCopyDone cfg s1 with ⟨s2, _ | e⟩
+  · simp only [fixLa]
+    exact congrArg (fun t => (t, (none : Option Err))) (tsAdvance_la s2 l q false)
+  · rfl
+
 theorem tsCopy_la (s : TsSt) (l : Nat) (q : Bytes) :
-    tsCopy { s with lookahead := l } q = fixLa l (tsCopy s q) := by
+    tsCopy cfg { s with lookahead := l } q = fixLa l (tsCopy cfg s q) := by
   unfold tsCopy
   dsimp only
   split
   · split
     · rfl
-    · simp only [fixLa]
-      exact congrArg (fun t => (t, (none : Option Err))) (tsAdvance_mk _ _ _ _ _ _ _ _ _ _ _ _ _ _)
+    · exact tsCopyFin_la s _ _ l q rfl
   · split
     · rfl
-    · simp only [fixLa]
-      exact congrArg (fun t => (t, (none : Option Err))) (tsAdvance_mk _ _ _ _ _ _ _ _ _ _ _ _ _ _)
+    · exact tsCopyFin_la s _ _ l q rfl
 
 theorem tsHeader_la (s : TsSt) (l : Nat) (q : Bytes) :
-    tsHeader { s with lookahead := l } q = fixLa l (tsHeader s q) := by
+    tsHeader cfg { s with lookahead := l } q = fixLa l (tsHeader cfg s q) := by
   unfold tsHeader
   have hc : tsHeaderCheck { s with lookahead := l } q = tsHeaderCheck s q := rfl
   rw [hc]
@@ -339,9 +365,9 @@ theorem fixLaK_of_fixLa (l : Nat) (r : TsSt × Option Err) :
       | (s', some e) => (s', TsK.stop (.fault e))) := by
   rcases r with ⟨s', _ | e⟩ <;> rfl
 
-theorem tsPhaseE_la (s : TsSt) (l : Nat) : tsPhaseE { s with lookahead := l } = fixLaK l (tsPhaseE s) := by
+theorem tsPhaseE_la (s : TsSt) (l : Nat) : tsPhaseE cfg { s with lookahead := l } = fixLaK l (tsPhaseE cfg s) := by
   unfold tsPhaseE
-  have h1 := tsHeader_la s l s.tsBuf
+  have h1 := tsHeader_la (cfg := cfg) s l s.tsBuf
   dsimp only at h1 ⊢
   split
   · split
@@ -356,7 +382,7 @@ theorem tsPhaseE_la (s : TsSt) (l : Nat) : tsPhaseE { s with lookahead := l } = 
       · rename_i p hp
         split
         · rfl
-        · have h2 := tsHeader_la { s with inSync := true } l (s.tsBuf.drop p)
+        · have h2 := tsHeader_la (cfg := cfg) { s with inSync := true } l (s.tsBuf.drop p)
           dsimp only at h2
           rw [h2]; exact fixLaK_of_fixLa l _
 
@@ -370,16 +396,16 @@ def TsK.isFault : TsK → Prop
 def tsDE (s3 : TsSt) (rest : Bytes) : TsSt × Nat × TsK :=
   match tsPhaseD s3 rest with
   | .stop s4 k => (s4, rest.length, .stop k)
-  | .go s4 n4 => ((tsPhaseE s4).1, n4, (tsPhaseE s4).2)
+  | .go s4 n4 => ((tsPhaseE cfg s4).1, n4, (tsPhaseE cfg s4).2)
 
 /-- blocks C, D and E on `rest` -/
 def tsCDE (s2 : TsSt) (rest : Bytes) : TsSt × Nat × TsK :=
   match tsPhaseC s2 rest with
   | .stop s3 k => (s3, rest.length, .stop k)
-  | .go s3 n3 => ((tsDE s3 (rest.drop n3)).1, n3 + (tsDE s3 (rest.drop n3)).2.1, (tsDE s3 (rest.drop n3)).2.2)
+  | .go s3 n3 => ((tsDE (cfg := cfg) s3 (rest.drop n3)).1, n3 + (tsDE (cfg := cfg) s3 (rest.drop n3)).2.1, (tsDE (cfg := cfg) s3 (rest.drop n3)).2.2)
 
-theorem tsDE_cont (s3 s5 : TsSt) (x y : Bytes) (n : Nat) (h : tsDE s3 x = (s5, n, .cont)) :
-    n ≤ x.length ∧ tsDE s3 (x ++ y) = (s5, n, .cont) := by
+theorem tsDE_cont (s3 s5 : TsSt) (x y : Bytes) (n : Nat) (h : tsDE (cfg := cfg) s3 x = (s5, n, .cont)) :
+    n ≤ x.length ∧ tsDE (cfg := cfg) s3 (x ++ y) = (s5, n, .cont) := by
   unfold tsDE at h ⊢
   cases hD : tsPhaseD s3 x with
   | stop s4 k => rw [hD] at h; simp at h
@@ -393,9 +419,9 @@ theorem tsDE_cont (s3 s5 : TsSt) (x y : Bytes) (n : Nat) (h : tsDE s3 x = (s5, n
     exact ⟨hle, by simp [h1, h3]⟩
 
 /-- D stopped for lack of input: with more input the result is that of resuming -/
-theorem tsDE_more (s3 s4 : TsSt) (x y : Bytes) (n : Nat) (h : tsDE s3 x = (s4, n, .stop .needMore))
-    (hok : ¬ (tsDE s4 y).2.2.isFault) :
-    n = x.length ∧ tsDE s3 (x ++ y) = ((tsDE s4 y).1, x.length + (tsDE s4 y).2.1, (tsDE s4 y).2.2)
+theorem tsDE_more (s3 s4 : TsSt) (x y : Bytes) (n : Nat) (h : tsDE (cfg := cfg) s3 x = (s4, n, .stop .needMore))
+    (hok : ¬ (tsDE (cfg := cfg) s4 y).2.2.isFault) :
+    n = x.length ∧ tsDE (cfg := cfg) s3 (x ++ y) = ((tsDE (cfg := cfg) s4 y).1, x.length + (tsDE (cfg := cfg) s4 y).2.1, (tsDE (cfg := cfg) s4 y).2.2)
       ∧ s4.consume = s3.consume ∧ s4.frameRest = s3.frameRest ∧ s4.skip = s3.skip := by
   unfold tsDE at h
   cases hD : tsPhaseD s3 x with
@@ -439,13 +465,13 @@ theorem tsDE_more (s3 s4 : TsSt) (x y : Bytes) (n : Nat) (h : tsDE s3 x = (s4, n
     | stop a k => simp [Ph.shiftLa]
     | go a b =>
       simp only [Ph.shiftLa]
-      have hE := tsPhaseE_la a s3.lookahead
+      have hE := tsPhaseE_la (cfg := cfg) a s3.lookahead
       rw [hE]
-      have hnf : ¬ (tsPhaseE a).2.isFault := by
+      have hnf : ¬ (tsPhaseE cfg a).2.isFault := by
         unfold tsDE at hok
         rw [hD2] at hok
         exact hok
-      rcases hr : tsPhaseE a with ⟨s5, k⟩
+      rcases hr : tsPhaseE cfg a with ⟨s5, k⟩
       rw [hr] at hnf
       cases k with
       | cont => rfl
@@ -455,8 +481,8 @@ theorem tsDE_more (s3 s4 : TsSt) (x y : Bytes) (n : Nat) (h : tsDE s3 x = (s4, n
         | needMore => rfl
         | callback => rfl
 
-theorem tsCDE_cont (s2 s5 : TsSt) (x y : Bytes) (n : Nat) (h : tsCDE s2 x = (s5, n, .cont)) :
-    n ≤ x.length ∧ tsCDE s2 (x ++ y) = (s5, n, .cont) := by
+theorem tsCDE_cont (s2 s5 : TsSt) (x y : Bytes) (n : Nat) (h : tsCDE (cfg := cfg) s2 x = (s5, n, .cont)) :
+    n ≤ x.length ∧ tsCDE (cfg := cfg) s2 (x ++ y) = (s5, n, .cont) := by
   unfold tsCDE at h ⊢
   cases hC : tsPhaseC s2 x with
   | stop s3 k => rw [hC] at h; simp at h
@@ -474,9 +500,9 @@ theorem tsCDE_cont (s2 s5 : TsSt) (x y : Bytes) (n : Nat) (h : tsCDE s2 x = (s5,
     have hl : (x.drop n3).length = x.length - n3 := by simp
     exact ⟨by omega, rfl⟩
 
-theorem tsCDE_more (s2 s' : TsSt) (x y : Bytes) (n : Nat) (h : tsCDE s2 x = (s', n, .stop .needMore))
-    (hok : ¬ (tsCDE s' y).2.2.isFault) :
-    n = x.length ∧ tsCDE s2 (x ++ y) = ((tsCDE s' y).1, x.length + (tsCDE s' y).2.1, (tsCDE s' y).2.2)
+theorem tsCDE_more (s2 s' : TsSt) (x y : Bytes) (n : Nat) (h : tsCDE (cfg := cfg) s2 x = (s', n, .stop .needMore))
+    (hok : ¬ (tsCDE (cfg := cfg) s' y).2.2.isFault) :
+    n = x.length ∧ tsCDE (cfg := cfg) s2 (x ++ y) = ((tsCDE (cfg := cfg) s' y).1, x.length + (tsCDE (cfg := cfg) s' y).2.1, (tsCDE (cfg := cfg) s' y).2.2)
       ∧ s'.consume = s2.consume ∧ s'.frameRest = s2.frameRest := by
   unfold tsCDE at h
   cases hC : tsPhaseC s2 x with
@@ -511,12 +537,12 @@ theorem tsCDE_more (s2 s' : TsSt) (x y : Bytes) (n : Nat) (h : tsCDE s2 x = (s',
     simp only [Prod.mk.injEq] at h
     obtain ⟨rfl, rfl, rfl⟩ := h
     -- resuming from `a`: block C is a no-op
-    have hre : ∀ (hs : a.skip = 0), tsCDE a y = ((tsDE a y).1, (tsDE a y).2.1, (tsDE a y).2.2) := by
+    have hre : ∀ (hs : a.skip = 0), tsCDE (cfg := cfg) a y = ((tsDE (cfg := cfg) a y).1, (tsDE (cfg := cfg) a y).2.1, (tsDE (cfg := cfg) a y).2.2) := by
       intro hs
       unfold tsCDE
       rw [tsPhaseC_reentry a y hs]
       simp
-    have hokDE : ¬ (tsDE a y).2.2.isFault → True := fun _ => trivial
+    have hokDE : ¬ (tsDE (cfg := cfg) a y).2.2.isFault → True := fun _ => trivial
     have hl : (x.drop n3).length = x.length - n3 := by simp
     -- first get the preservation facts, they do not need `hok`
     have hpresD : a.consume = s3.consume ∧ a.frameRest = s3.frameRest ∧ a.skip = s3.skip := by
@@ -556,7 +582,7 @@ theorem tsCDE_more (s2 s' : TsSt) (x y : Bytes) (n : Nat) (h : tsCDE s2 x = (s',
 
 /-! ## block B -/
 
-theorem dataUnit_not_done (f : Frame) (d : Bytes) (id len : Nat) : ∀ f', dataUnit f d id len ≠ .fail f' .done := by
+theorem dataUnit_not_done (f : Frame) (d : Bytes) (id len : Nat) : ∀ f', dataUnit cfg f d id len ≠ .fail f' .done := by
   intro f'
   unfold dataUnit
   simp only []
@@ -566,7 +592,7 @@ theorem dataUnit_not_done (f : Frame) (d : Bytes) (id len : Nat) : ∀ f', dataU
     | skip
 
 theorem extractLoop_done_rest : ∀ (fuel : Nat) (f : Frame) (d : Bytes),
-    (extractLoop fuel f d).2.1 = .done → (extractLoop fuel f d).2.2 = [] := by
+    (extractLoop cfg fuel f d).2.1 = .done → (extractLoop cfg fuel f d).2.2 = [] := by
   intro fuel
   induction fuel with
   | zero => intro f d h; simp [extractLoop] at h
@@ -583,7 +609,7 @@ theorem extractLoop_done_rest : ∀ (fuel : Nat) (f : Frame) (d : Bytes),
         by_cases hl : len + 2 > (id :: len :: t).length
         · rw [if_pos hl]; intro h; simp at h
         · rw [if_neg hl]
-          cases hdu : dataUnit f (id :: len :: t) id len with
+          cases hdu : dataUnit cfg f (id :: len :: t) id len with
           | skip => exact ih _ _
           | store f' => exact ih _ _
           | fail f' r =>
@@ -593,7 +619,7 @@ theorem extractLoop_done_rest : ∀ (fuel : Nat) (f : Frame) (d : Bytes),
             exact absurd hdu (dataUnit_not_done f _ id len f')
 
 theorem pesPacketFrame_done_rest : ∀ (n : Nat) (cb se : Bool) (fs : FS) (d : Bytes),
-    (pesPacketFrame n cb se fs d).2.2.1 = .done → (pesPacketFrame n cb se fs d).2.2.2 = [] := by
+    (pesPacketFrame cfg n cb se fs d).2.2.1 = .done → (pesPacketFrame cfg n cb se fs d).2.2.2 = [] := by
   intro n
   induction n with
   | zero => intro cb se fs d h; simp [pesPacketFrame] at h
@@ -603,12 +629,12 @@ theorem pesPacketFrame_done_rest : ∀ (n : Nat) (cb se : Bool) (fs : FS) (d : B
     dsimp only
     generalize hfs1 : (if fs.newFrame = true then
       ({ fs with frame := resetFrame fs.frame, framePts := fs.packetPts, newFrame := false } : FS) else fs) = fs1
-    rcases hx : extract fs1.frame d with ⟨f, r, rest⟩
+    rcases hx : extract cfg fs1.frame d with ⟨f, r, rest⟩
     cases r with
     | done =>
       intro _
       dsimp only
-      have : (extract fs1.frame d).2.1 = .done := by rw [hx]
+      have : (extract cfg fs1.frame d).2.1 = .done := by rw [hx]
       unfold extract at this hx
       split at hx
       · rw [if_pos (by assumption)] at this; simp at this
@@ -626,11 +652,11 @@ theorem pesPacketFrame_done_rest : ∀ (n : Nat) (cb se : Bool) (fs : FS) (d : B
         · intro h; simp at h
       · exact ih _ _ _ _
 
-theorem tsPhaseB_none (cb se : Bool) (s s2 : TsSt) (o : List FrameOut) (h : tsPhaseB cb se s = (s2, o, none)) :
+theorem tsPhaseB_none (cb se : Bool) (s s2 : TsSt) (o : List FrameOut) (h : tsPhaseB cfg cb se s = (s2, o, none)) :
     s2.frameRest = [] ∧ s2.consume = s.consume := by
   unfold tsPhaseB at h
   split at h
-  · rcases hp : pesPacketFrame 3 cb se s.fs s.frameRest with ⟨fs1, outs, r, rest⟩
+  · rcases hp : pesPacketFrame cfg 3 cb se s.fs s.frameRest with ⟨fs1, outs, r, rest⟩
     rw [hp] at h
     cases r with
     | callback => simp at h
@@ -647,15 +673,15 @@ theorem tsPhaseB_none (cb se : Bool) (s s2 : TsSt) (o : List FrameOut) (h : tsPh
     obtain ⟨rfl, _, _⟩ := h
     exact ⟨List.eq_nil_of_length_eq_zero (by omega), rfl⟩
 
-theorem tsPhaseB_reentry (cb se : Bool) (s : TsSt) (h : s.frameRest = []) : tsPhaseB cb se s = (s, [], none) := by
+theorem tsPhaseB_reentry (cb se : Bool) (s : TsSt) (h : s.frameRest = []) : tsPhaseB cfg cb se s = (s, [], none) := by
   unfold tsPhaseB
   rw [if_neg (by simp [h])]
 
 theorem tsPhaseB_some (cb se : Bool) (s s2 : TsSt) (o : List FrameOut) (k : Stop)
-    (h : tsPhaseB cb se s = (s2, o, some k)) : k ≠ .needMore := by
+    (h : tsPhaseB cfg cb se s = (s2, o, some k)) : k ≠ .needMore := by
   unfold tsPhaseB at h
   split at h
-  · rcases hp : pesPacketFrame 3 cb se s.fs s.frameRest with ⟨fs1, outs, r, rest⟩
+  · rcases hp : pesPacketFrame cfg 3 cb se s.fs s.frameRest with ⟨fs1, outs, r, rest⟩
     rw [hp] at h
     cases r <;> simp at h <;> (obtain ⟨_, _, rfl⟩ := h; simp)
   · simp at h
@@ -664,21 +690,21 @@ theorem tsPhaseB_some (cb se : Bool) (s s2 : TsSt) (o : List FrameOut) (k : Stop
 
 /-- the loop body with blocks C, D, E folded into `tsCDE` -/
 theorem tsStep_eq (cb se : Bool) (s : TsSt) (rest : Bytes) :
-    tsStep cb se s rest =
+    tsStep cfg cb se s rest =
       match tsPhaseA s rest with
       | .stop s' k => (s', [], rest.length, .stop k)
       | .go s1 n1 =>
-        match tsPhaseB cb se s1 with
+        match tsPhaseB cfg cb se s1 with
         | (s2, outs, some k) => (s2, outs, n1, .stop k)
         | (s2, outs, none) =>
-          ((tsCDE s2 (rest.drop n1)).1, outs, n1 + (tsCDE s2 (rest.drop n1)).2.1, (tsCDE s2 (rest.drop n1)).2.2) := by
+          ((tsCDE (cfg := cfg) s2 (rest.drop n1)).1, outs, n1 + (tsCDE (cfg := cfg) s2 (rest.drop n1)).2.1, (tsCDE (cfg := cfg) s2 (rest.drop n1)).2.2) := by
   unfold tsStep
   cases hA : tsPhaseA s rest with
   | stop s' k => rfl
   | go s1 n1 =>
     have hle := (tsPhaseA_go s s1 rest [] n1 hA).1
     dsimp only
-    rcases hB : tsPhaseB cb se s1 with ⟨s2, outs, _ | k⟩
+    rcases hB : tsPhaseB cfg cb se s1 with ⟨s2, outs, _ | k⟩
     · dsimp only
       have hl : (rest.drop n1).length = rest.length - n1 := by simp
       unfold tsCDE
@@ -704,8 +730,8 @@ theorem tsStep_eq (cb se : Bool) (s : TsSt) (rest : Bytes) :
     · rfl
 
 theorem tsStep_cont (cb se : Bool) (s s' : TsSt) (x y : Bytes) (o : List FrameOut) (n : Nat)
-    (h : tsStep cb se s x = (s', o, n, .cont)) :
-    n ≤ x.length ∧ tsStep cb se s (x ++ y) = (s', o, n, .cont) := by
+    (h : tsStep cfg cb se s x = (s', o, n, .cont)) :
+    n ≤ x.length ∧ tsStep cfg cb se s (x ++ y) = (s', o, n, .cont) := by
   rw [tsStep_eq] at h ⊢
   cases hA : tsPhaseA s x with
   | stop a k => rw [hA] at h; simp at h
@@ -714,7 +740,7 @@ theorem tsStep_cont (cb se : Bool) (s s' : TsSt) (x y : Bytes) (o : List FrameOu
     obtain ⟨hle, hgo, _⟩ := tsPhaseA_go s s1 x y n1 hA
     rw [hgo]
     dsimp only at h ⊢
-    rcases hB : tsPhaseB cb se s1 with ⟨s2, outs, _ | k⟩
+    rcases hB : tsPhaseB cfg cb se s1 with ⟨s2, outs, _ | k⟩
     · rw [hB] at h
       dsimp only at h ⊢
       rcases hT : tsCDE s2 (x.drop n1) with ⟨a, m, k⟩
@@ -728,10 +754,10 @@ theorem tsStep_cont (cb se : Bool) (s s' : TsSt) (x y : Bytes) (o : List FrameOu
     · rw [hB] at h; simp at h
 
 theorem tsStep_more (cb se : Bool) (s s' : TsSt) (x y : Bytes) (o : List FrameOut) (n : Nat)
-    (h : tsStep cb se s x = (s', o, n, .stop .needMore)) (hok : ¬ (tsStep cb se s' y).2.2.2.isFault) :
-    n = x.length ∧ tsStep cb se s (x ++ y)
-      = ((tsStep cb se s' y).1, o ++ (tsStep cb se s' y).2.1, x.length + (tsStep cb se s' y).2.2.1,
-         (tsStep cb se s' y).2.2.2) := by
+    (h : tsStep cfg cb se s x = (s', o, n, .stop .needMore)) (hok : ¬ (tsStep cfg cb se s' y).2.2.2.isFault) :
+    n = x.length ∧ tsStep cfg cb se s (x ++ y)
+      = ((tsStep cfg cb se s' y).1, o ++ (tsStep cfg cb se s' y).2.1, x.length + (tsStep cfg cb se s' y).2.2.1,
+         (tsStep cfg cb se s' y).2.2.2) := by
   rw [tsStep_eq] at h
   cases hA : tsPhaseA s x with
   | stop a k =>
@@ -758,7 +784,7 @@ theorem tsStep_more (cb se : Bool) (s s' : TsSt) (x y : Bytes) (o : List FrameOu
       have hd : (x ++ y).drop (x.length + c) = y.drop c := by
         rw [← List.drop_drop, List.drop_append_length]
       rw [hd]
-      rcases tsPhaseB cb se b with ⟨s2, outs, _ | k⟩
+      rcases tsPhaseB cfg cb se b with ⟨s2, outs, _ | k⟩
       · simp only [List.nil_append, Prod.mk.injEq, true_and, and_true]
         omega
       · simp
@@ -766,7 +792,7 @@ theorem tsStep_more (cb se : Bool) (s s' : TsSt) (x y : Bytes) (o : List FrameOu
     rw [hA] at h
     dsimp only at h
     obtain ⟨hle, hgo, hc0⟩ := tsPhaseA_go s s1 x y n1 hA
-    rcases hB : tsPhaseB cb se s1 with ⟨s2, outs, _ | k⟩
+    rcases hB : tsPhaseB cfg cb se s1 with ⟨s2, outs, _ | k⟩
     · rw [hB] at h
       dsimp only at h
       rcases hT : tsCDE s2 (x.drop n1) with ⟨a, m, k⟩
@@ -821,7 +847,7 @@ theorem tsStep_more (cb se : Bool) (s s' : TsSt) (x y : Bytes) (o : List FrameOu
       have ha0 : a.consume = 0 := by rw [hpres.1, hco, hc0]
       have hafr : a.frameRest = [] := by rw [hpres.2, hfr]
       -- resuming from `a`: blocks A and B are no-ops
-      have hre : tsStep cb se a y = ((tsCDE a y).1, [], (tsCDE a y).2.1, (tsCDE a y).2.2) := by
+      have hre : tsStep cfg cb se a y = ((tsCDE (cfg := cfg) a y).1, [], (tsCDE (cfg := cfg) a y).2.1, (tsCDE (cfg := cfg) a y).2.2) := by
         rw [tsStep_eq, tsPhaseA_reentry a y ha0]
         dsimp only
         rw [tsPhaseB_reentry cb se a hafr]
@@ -847,7 +873,7 @@ def Stop.isFault : Stop → Prop
   | _ => False
 
 theorem tsRun_mono (cb se : Bool) : ∀ (f : Nat) (s : TsSt) (x : Bytes) (k : Nat),
-    ¬ (tsRun f cb se s x).2.2.2.isFault → tsRun (f + k) cb se s x = tsRun f cb se s x := by
+    ¬ (tsRun cfg f cb se s x).2.2.2.isFault → tsRun cfg (f + k) cb se s x = tsRun cfg f cb se s x := by
   intro f
   induction f with
   | zero => intro s x k h; exact absurd trivial h
@@ -856,7 +882,7 @@ theorem tsRun_mono (cb se : Bool) : ∀ (f : Nat) (s : TsSt) (x : Bytes) (k : Na
     have e : f + 1 + k = (f + k) + 1 := by omega
     rw [e]
     unfold tsRun at h ⊢
-    rcases hs : tsStep cb se s x with ⟨s', o, n, kk⟩
+    rcases hs : tsStep cfg cb se s x with ⟨s', o, n, kk⟩
     rw [hs] at h
     cases kk with
     | stop r => rfl
@@ -865,19 +891,19 @@ theorem tsRun_mono (cb se : Bool) : ∀ (f : Nat) (s : TsSt) (x : Bytes) (k : Na
       rw [ih s' (x.drop n) k h]
 
 theorem tsRun_append (cb se : Bool) : ∀ (f1 : Nat) (s s1 : TsSt) (x : Bytes) (o1 : List FrameOut) (n1 : Nat),
-    tsRun f1 cb se s x = (s1, o1, n1, .needMore) →
-    ∀ (f2 : Nat) (y : Bytes), ¬ (tsRun f2 cb se s1 y).2.2.2.isFault →
+    tsRun cfg f1 cb se s x = (s1, o1, n1, .needMore) →
+    ∀ (f2 : Nat) (y : Bytes), ¬ (tsRun cfg f2 cb se s1 y).2.2.2.isFault →
     n1 = x.length ∧
-    tsRun (f1 + f2) cb se s (x ++ y)
-      = ((tsRun f2 cb se s1 y).1, o1 ++ (tsRun f2 cb se s1 y).2.1, x.length + (tsRun f2 cb se s1 y).2.2.1,
-         (tsRun f2 cb se s1 y).2.2.2) := by
+    tsRun cfg (f1 + f2) cb se s (x ++ y)
+      = ((tsRun cfg f2 cb se s1 y).1, o1 ++ (tsRun cfg f2 cb se s1 y).2.1, x.length + (tsRun cfg f2 cb se s1 y).2.2.1,
+         (tsRun cfg f2 cb se s1 y).2.2.2) := by
   intro f1
   induction f1 with
   | zero => intro s s1 x o1 n1 h; simp [tsRun] at h
   | succ f1 ih =>
     intro s s1 x o1 n1 h f2 y hok
     unfold tsRun at h
-    rcases hs : tsStep cb se s x with ⟨s', o, n, kk⟩
+    rcases hs : tsStep cfg cb se s x with ⟨s', o, n, kk⟩
     rw [hs] at h
     cases kk with
     | stop r =>
@@ -887,9 +913,9 @@ theorem tsRun_append (cb se : Bool) : ∀ (f1 : Nat) (s s1 : TsSt) (x : Bytes) (
       | zero => exact absurd trivial hok
       | succ f2 =>
         -- the resumed run begins with a step that is not a fault
-        have hstep : ¬ (tsStep cb se s' y).2.2.2.isFault := by
+        have hstep : ¬ (tsStep cfg cb se s' y).2.2.2.isFault := by
           unfold tsRun at hok
-          rcases hs2 : tsStep cb se s' y with ⟨a, b, c, kk⟩
+          rcases hs2 : tsStep cfg cb se s' y with ⟨a, b, c, kk⟩
           rw [hs2] at hok
           cases kk with
           | cont => exact fun h => h
@@ -904,7 +930,7 @@ theorem tsRun_append (cb se : Bool) : ∀ (f1 : Nat) (s s1 : TsSt) (x : Bytes) (
         rw [e]
         unfold tsRun at hok ⊢
         rw [hm.2]
-        rcases hs2 : tsStep cb se s' y with ⟨a, b, c, kk⟩
+        rcases hs2 : tsStep cfg cb se s' y with ⟨a, b, c, kk⟩
         rw [hs2] at hok
         cases kk with
         | stop r => rfl
@@ -917,7 +943,7 @@ theorem tsRun_append (cb se : Bool) : ∀ (f1 : Nat) (s s1 : TsSt) (x : Bytes) (
           omega
     | cont =>
       dsimp only at h
-      rcases hr : tsRun f1 cb se s' (x.drop n) with ⟨a, b, c, r⟩
+      rcases hr : tsRun cfg f1 cb se s' (x.drop n) with ⟨a, b, c, r⟩
       rw [hr] at h
       simp only [Prod.mk.injEq] at h
       obtain ⟨rfl, rfl, rfl, rfl⟩ := h
@@ -937,7 +963,7 @@ theorem tsRun_append (cb se : Bool) : ∀ (f1 : Nat) (s s1 : TsSt) (x : Bytes) (
 /-! ## `vbi_dvb_demux_feed` on a TS demux -/
 
 theorem pesPacketFrame_true_no_callback : ∀ (n : Nat) (se : Bool) (fs : FS) (d : Bytes),
-    (pesPacketFrame n true se fs d).2.2.1 ≠ .callback := by
+    (pesPacketFrame cfg n true se fs d).2.2.1 ≠ .callback := by
   intro n
   induction n with
   | zero => intro se fs d; simp [pesPacketFrame]
@@ -947,7 +973,7 @@ theorem pesPacketFrame_true_no_callback : ∀ (n : Nat) (se : Bool) (fs : FS) (d
     dsimp only
     generalize (if fs.newFrame = true then
       ({ fs with frame := resetFrame fs.frame, framePts := fs.packetPts, newFrame := false } : FS) else fs) = fs1
-    rcases extract fs1.frame d with ⟨f, r, rest⟩
+    rcases extract cfg fs1.frame d with ⟨f, r, rest⟩
     cases r with
     | done => simp
     | err => simp
@@ -957,7 +983,7 @@ theorem pesPacketFrame_true_no_callback : ∀ (n : Nat) (se : Bool) (fs : FS) (d
       exact ih _ _ _
 
 theorem tsStep_true_no_callback (se : Bool) (s : TsSt) (x : Bytes) :
-    (tsStep true se s x).2.2.2 ≠ .stop .callback := by
+    (tsStep cfg true se s x).2.2.2 ≠ .stop .callback := by
   rw [tsStep_eq]
   cases hA : tsPhaseA s x with
   | stop a k =>
@@ -978,7 +1004,7 @@ theorem tsStep_true_no_callback (se : Bool) (s : TsSt) (x : Bytes) :
          | skip)
   | go s1 n1 =>
     dsimp only
-    rcases hB : tsPhaseB true se s1 with ⟨s2, outs, _ | k⟩
+    rcases hB : tsPhaseB cfg true se s1 with ⟨s2, outs, _ | k⟩
     · dsimp only
       unfold tsCDE
       cases hC : tsPhaseC s2 (x.drop n1) with
@@ -1012,22 +1038,22 @@ theorem tsStep_true_no_callback (se : Bool) (s : TsSt) (x : Bytes) :
       intro h; simp only [TsK.stop.injEq] at h; subst h
       unfold tsPhaseB at hB
       split at hB
-      · have := pesPacketFrame_true_no_callback 3 se s1.fs s1.frameRest
-        rcases hp : pesPacketFrame 3 true se s1.fs s1.frameRest with ⟨fs1, o, r, rest⟩
+      · have := pesPacketFrame_true_no_callback (cfg := cfg) 3 se s1.fs s1.frameRest
+        rcases hp : pesPacketFrame cfg 3 true se s1.fs s1.frameRest with ⟨fs1, o, r, rest⟩
         rw [hp] at hB this
         cases r <;> simp at hB this
       · simp at hB
 
 theorem tsRun_true_no_callback (se : Bool) : ∀ (f : Nat) (s : TsSt) (x : Bytes),
-    (tsRun f true se s x).2.2.2 ≠ .callback := by
+    (tsRun cfg f true se s x).2.2.2 ≠ .callback := by
   intro f
   induction f with
   | zero => intro s x; simp [tsRun]
   | succ f ih =>
     intro s x
     unfold tsRun
-    have hs := tsStep_true_no_callback se s x
-    rcases hst : tsStep true se s x with ⟨s', o, n, k⟩
+    have hs := tsStep_true_no_callback (cfg := cfg) se s x
+    rcases hst : tsStep cfg true se s x with ⟨s', o, n, k⟩
     rw [hst] at hs
     cases k with
     | cont => dsimp only; exact ih _ _
@@ -1036,15 +1062,15 @@ theorem tsRun_true_no_callback (se : Bool) : ∀ (f : Nat) (s : TsSt) (x : Bytes
       intro h; subst h; exact hs rfl
 
 /-- a fault-free feed call is a run that ends with "need more data" -/
-theorem tsFeed_ok (s : TsSt) (buf : Bytes) (hne : buf.length ≠ 0) (h : (tsFeed s buf).err = none) :
-    ∃ s' o n, tsRun (buf.length + 2) true false s buf = (s', o, n, .needMore) ∧
-      tsFeed s buf = { st := s', frames := o } := by
+theorem tsFeed_ok (s : TsSt) (buf : Bytes) (hne : buf.length ≠ 0) (h : (tsFeed cfg s buf).err = none) :
+    ∃ s' o n, tsRun cfg (buf.length + 2) true false s buf = (s', o, n, .needMore) ∧
+      tsFeed cfg s buf = { st := s', frames := o } := by
   unfold tsFeed at h ⊢
   rw [if_neg hne] at h ⊢
   unfold tsLoop tsFuel at h ⊢
   simp only [List.drop_zero, Nat.sub_zero, Nat.zero_add] at h ⊢
-  have hnc := tsRun_true_no_callback false (buf.length + 2) s buf
-  rcases hr : tsRun (buf.length + 2) true false s buf with ⟨s', o, n, r⟩
+  have hnc := tsRun_true_no_callback (cfg := cfg) false (buf.length + 2) s buf
+  rcases hr : tsRun cfg (buf.length + 2) true false s buf with ⟨s', o, n, r⟩
   rw [hr] at h hnc
   cases r with
   | fault e => simp at h
@@ -1053,10 +1079,10 @@ theorem tsFeed_ok (s : TsSt) (buf : Bytes) (hne : buf.length ≠ 0) (h : (tsFeed
 
 /-- **ts_feed_split_invariant (provided no call reports a fault).** -/
 theorem tsFeed_split (s : TsSt) (a b : Bytes)
-    (h1 : (tsFeed s a).err = none) (h2 : (tsFeed (tsFeed s a).st b).err = none)
-    (h3 : (tsFeed s (a ++ b)).err = none) :
-    (tsFeed s (a ++ b)).frames = (tsFeed s a).frames ++ (tsFeed (tsFeed s a).st b).frames ∧
-    (tsFeed s (a ++ b)).st = (tsFeed (tsFeed s a).st b).st := by
+    (h1 : (tsFeed cfg s a).err = none) (h2 : (tsFeed cfg (tsFeed cfg s a).st b).err = none)
+    (h3 : (tsFeed cfg s (a ++ b)).err = none) :
+    (tsFeed cfg s (a ++ b)).frames = (tsFeed cfg s a).frames ++ (tsFeed cfg (tsFeed cfg s a).st b).frames ∧
+    (tsFeed cfg s (a ++ b)).st = (tsFeed cfg (tsFeed cfg s a).st b).st := by
   by_cases ha : a.length = 0
   · have : a = [] := List.eq_nil_of_length_eq_zero ha
     subst this
@@ -1071,10 +1097,10 @@ theorem tsFeed_split (s : TsSt) (a b : Bytes)
       obtain ⟨s2, o2, n2, r2, e2⟩ := tsFeed_ok s1 b hb h2
       obtain ⟨s3, o3, n3, r3, e3⟩ := tsFeed_ok s (a ++ b) hab h3
       rw [e2, e3]
-      have hok2 : ¬ (tsRun (b.length + 2) true false s1 b).2.2.2.isFault := by rw [r2]; exact fun h => h
+      have hok2 : ¬ (tsRun cfg (b.length + 2) true false s1 b).2.2.2.isFault := by rw [r2]; exact fun h => h
       have happ := (tsRun_append true false (a.length + 2) s s1 a o1 n1 r1 (b.length + 2) b hok2).2
       rw [r2] at happ
-      have hok3 : ¬ (tsRun ((a ++ b).length + 2) true false s (a ++ b)).2.2.2.isFault := by
+      have hok3 : ¬ (tsRun cfg ((a ++ b).length + 2) true false s (a ++ b)).2.2.2.isFault := by
         rw [r3]; exact fun h => h
       have hm := tsRun_mono true false ((a ++ b).length + 2) s (a ++ b) 2 hok3
       have e : (a ++ b).length + 2 + 2 = a.length + 2 + (b.length + 2) := by rw [List.length_append]; omega
